@@ -34,6 +34,19 @@ pub fn gen_sets(cfg: &RunCfg) -> Vec<Vec<M>> {
             md.defs.push(D { name: format!("WitC{set}x{m}e"), kind: Kind::Type, shape: "WitC".into(), text: format!("WitC{set}x{m}e ::= CHOICE {{ x [0] NULL, y [1] UTF8String }}"), refs: vec![], fault: None });
             mods.push(md);
         }
+        // homonyms next door: a module that is neither imported nor referenced declares the enumeral / named numbers
+        // a neighbour uses, in types that sort before the neighbour's own and whose names are suffixes / look-alikes of them
+        if set % 2 == 0 {
+            let (a, b) = (0usize, 1usize);
+            mods[a].defs.push(D { text: "Top-Shade ::= ENUMERATED { light, dark }".into(), name: "Top-Shade".into(), kind: Kind::Type, shape: "Enu".into(), refs: vec![], fault: None });
+            mods[a].defs.push(D { text: "favourite Top-Shade ::= light".into(), name: "favourite".into(), kind: Kind::Value, shape: "venu".into(), refs: vec!["Top-Shade".into()], fault: None });
+            mods[a].defs.push(D { text: "Level ::= INTEGER { low(1), high(9) }".into(), name: "Level".into(), kind: Kind::Type, shape: "Int".into(), refs: vec![], fault: None });
+            mods[a].defs.push(D { text: "Ranged ::= Level (low..high)".into(), name: "Ranged".into(), kind: Kind::Type, shape: "Int".into(), refs: vec!["Level".into()], fault: None });
+            mods[a].defs.push(D { text: "Holder-Of-Levels ::= SEQUENCE { l Level (low..high), s Top-Shade DEFAULT light }".into(), name: "Holder-Of-Levels".into(), kind: Kind::Type, shape: "Seq".into(), refs: vec!["Level".into(), "Top-Shade".into()], fault: None });
+            mods[b].defs.push(D { text: "Shade ::= ENUMERATED { heavy, light }".into(), name: "Shade".into(), kind: Kind::Type, shape: "Enu".into(), refs: vec![], fault: None });
+            mods[b].defs.push(D { text: "Depth ::= INTEGER { low(10), high(90) }".into(), name: "Depth".into(), kind: Kind::Type, shape: "Int".into(), refs: vec![], fault: None });
+            mods[b].defs.push(D { text: "A-Level ::= INTEGER { low(20), high(30) } (low..high)".into(), name: "A-Level".into(), kind: Kind::Type, shape: "Int".into(), refs: vec![], fault: None });
+        }
         link_imports(&mut rng, &mut mods, 3, &format!("{set}"));
         // an imported value whose (not imported) type is named like the beginning of another imported symbol
         if n_mod >= 2 && rng.chance(1, 2) {
